@@ -19,10 +19,10 @@ func TestProp(t *testing.T)   { pbt.RunProps(t) }
 func TestReplay(t *testing.T) { pbt.RunReplay(t) }
 
 type Case struct {
-	Prog       build.Program `json:"program"`
-	EveryStep  bool          `json:"check_every_step"`
-	Chunks     []int         `json:"chunks"`
-	EOFWith    bool          `json:"eof_with_data"`
+	Prog      build.Program `json:"program"`
+	EveryStep bool          `json:"check_every_step"`
+	Chunks    []int         `json:"chunks"`
+	EOFWith   bool          `json:"eof_with_data"`
 }
 
 func checkAll(m *build.Machine, where string) error {
@@ -117,28 +117,54 @@ func run(c Case) (pbt.Result, error) {
 	if !bytes.Equal(eb.Bytes(), plain) {
 		return res, pbt.Fail("encoder-differs-from-marshal", "Encoder output differs from Marshal()")
 	}
-	d := capnp.NewDecoder(&hx.ChunkReader{Data: append([]byte(nil), plain...), Chunks: c.Chunks, EOFWithData: c.EOFWith})
-	m3, err := d.Decode()
-	if e := expectMsg("encoder-decoder", m3, err); e != nil {
-		return res, e
-	}
-	if _, err := d.Decode(); err != io.EOF {
-		return res, pbt.Fail("decoder-no-eof", "second Decode: %v", err)
-	}
-	var pb bytes.Buffer
-	if err := capnp.NewPackedEncoder(&pb).Encode(m.Msg); err != nil {
-		return res, pbt.Fail("packedencoder-error", "%v", err)
-	}
-	pd := capnp.NewPackedDecoder(&hx.ChunkReader{Data: append([]byte(nil), pb.Bytes()...), Chunks: c.Chunks, EOFWithData: c.EOFWith})
-	pd.ReuseBuffer()
-	m4, err := pd.Decode()
-	if e := expectMsg("packedencoder-decoder", m4, err); e != nil {
-		return res, e
-	}
-	if _, err := pd.Decode(); err != io.EOF {
-		return res, pbt.Fail("packeddecoder-no-eof", "second Decode: %v", err)
+	// One Encoder writes, one Decoder reads, a stream in which the message travels between others of different shapes
+	// (six segments before it, one segment after it, then the message again): what a Decoder keeps from one message
+	// must not leak into the next.
+	for _, packed := range []bool{false, true} {
+		name := "encoder-decoder"
+		var sb bytes.Buffer
+		enc := capnp.NewEncoder(&sb)
+		if packed {
+			name = "packedencoder-decoder"
+			enc = capnp.NewPackedEncoder(&sb)
+		}
+		for _, msg := range []*capnp.Message{filler(6), m.Msg, filler(1), m.Msg} {
+			if err := enc.Encode(msg); err != nil {
+				return res, pbt.Fail(name+"/encode-error", "%v", err)
+			}
+		}
+		rd := &hx.ChunkReader{Data: append([]byte(nil), sb.Bytes()...), Chunks: c.Chunks, EOFWithData: c.EOFWith}
+		dec := capnp.NewDecoder(rd)
+		if packed {
+			dec = capnp.NewPackedDecoder(rd)
+			dec.ReuseBuffer()
+		}
+		for i, wantSegs := range []int64{6, -1, 1, -1} {
+			mi, err := dec.Decode()
+			if wantSegs < 0 {
+				if e := expectMsg(fmt.Sprintf("%s/message-%d-of-stream", name, i), mi, err); e != nil {
+					return res, e
+				}
+				continue
+			}
+			if err != nil || mi.NumSegments() != wantSegs {
+				return res, pbt.Fail(name+"/filler", "message %d of the stream (a %d-segment filler): err=%v", i, wantSegs, err)
+			}
+		}
+		if _, err := dec.Decode(); err != io.EOF {
+			return res, pbt.Fail(name+"/no-eof", "Decode after the last message: %v", err)
+		}
 	}
 	return res, nil
+}
+
+// filler returns a message of n one-word segments (null root).
+func filler(n int) *capnp.Message {
+	segs := make([][]byte, n)
+	for i := range segs {
+		segs[i] = make([]byte, 8)
+	}
+	return &capnp.Message{Arena: capnp.MultiSegment(segs)}
 }
 
 func segBucket(n int) string {
@@ -176,8 +202,8 @@ func countFar(framed []byte) (far, dfar int) {
 
 var _ = pbt.Register(pbt.Spec[Case]{
 	Property: "C04", Name: "build-readback",
-	Rule:     "build programs of up to 40 ops (new struct/primitive/bit/void/pointer/composite list/text/data; set data at every width and bit; set list elements; SetPtr with null / orphan (move) / list-member (documented deep copy) / capability / SetNewText / SetData; List.SetStruct; Struct.CopyFrom; SetRoot incl. re-rooting; overwrites) over 5 arena kinds (SingleSegment nil/cap, MultiSegment nil/small first segment, own exact-capacity arena with 0-3 slack words, dirty spare capacity) with a reference model updated alongside; oracle: after every mutating op (half of the cases) and at the end the tree read back through getters equals the model, also for objects not attached to the root; then Marshal/Unmarshal, MarshalPacked/UnmarshalPacked, Encoder/Decoder and PackedEncoder/PackedDecoder(+ReuseBuffer) over drawn reader chunkings read back equal. Non-trivial: >=2 segments with a far or double-far pointer and depth>=2.",
-	Quick:    10000, Thorough: 120000,
+	Rule:  "build programs of up to 40 ops (new struct/primitive/bit/void/pointer/composite list/text/data; set data at every width and bit; set list elements; SetPtr with null / orphan (move) / list-member (documented deep copy) / capability / SetNewText / SetData; List.SetStruct; Struct.CopyFrom; SetRoot incl. re-rooting; overwrites) over 5 arena kinds (SingleSegment nil/cap, MultiSegment nil/small first segment, own exact-capacity arena with 0-3 slack words, dirty spare capacity) with a reference model updated alongside; oracle: after every mutating op (half of the cases) and at the end the tree read back through getters equals the model, also for objects not attached to the root; then Marshal/Unmarshal, MarshalPacked/UnmarshalPacked, Encoder/Decoder and PackedEncoder/PackedDecoder(+ReuseBuffer) over drawn reader chunkings read back equal, the message travelling twice in one stream between a six-segment and a one-segment message on one Encoder and one Decoder. Non-trivial: >=2 segments with a far or double-far pointer and depth>=2.",
+	Quick: 10000, Thorough: 120000,
 	Gen: func(t *rapid.T) Case {
 		c := Case{Prog: build.GenProgram(t, 40), EveryStep: rapid.Bool().Draw(t, "everystep")}
 		n := rapid.IntRange(0, 3).Draw(t, "nchunks")
